@@ -21,6 +21,18 @@ func (c *compAdapter) OutPort(n string) *sp.OutPort           { return c.out(n) 
 func (c *compAdapter) OutParamPort(n string) *sp.OutParamPort { return c.outp(n) }
 
 // TagValue is the tag a MapToTags node attaches: derived from the path only.
+// tagValueFor: the value node n (a MapToTags) attaches to the file at path.
+func tagValueFor(n *Node, path string) string {
+	if n.TagGroups > 0 {
+		h := 0
+		for _, c := range baseName(path) {
+			h = (h*31 + int(c)) % 1000003
+		}
+		return fmt.Sprintf("g%d", h%n.TagGroups)
+	}
+	return TagValue(path)
+}
+
 func TagValue(path string) string {
 	b := baseName(path)
 	b = strings.ReplaceAll(b, ".", "_")
@@ -68,8 +80,9 @@ func buildComponent(wf *sp.Workflow, w *WF, n *Node, rt *Runtime) outPorter {
 		return &compAdapter{out: func(string) *sp.OutPort { return p.OutPort("out") }, in: p.InPort}
 	case KMapToTags:
 		key := n.TagKey
+		nn := *n
 		p := components.NewMapToTags(wf, n.Name, func(ip *sp.FileIP) map[string]string {
-			return map[string]string{key: TagValue(ip.Path())}
+			return map[string]string{key: tagValueFor(&nn, ip.Path())}
 		})
 		return &compAdapter{out: func(string) *sp.OutPort { return p.Out() }, in: func(string) *sp.InPort { return p.In() }}
 	case KStreamToSub:
@@ -93,6 +106,9 @@ func buildComponent(wf *sp.Workflow, w *WF, n *Node, rt *Runtime) outPorter {
 		return &compAdapter{out: func(string) *sp.OutPort { return p.OutSplitFile() }, in: func(string) *sp.InPort { return p.InFile() }}
 	case KConcat:
 		p := components.NewConcatenator(wf, n.Name, n.OutPath)
+		if n.GroupBy != "" {
+			p.GroupByTag = n.GroupBy
+		}
 		return &compAdapter{out: func(string) *sp.OutPort { return p.Out() }, in: func(string) *sp.InPort { return p.In() }}
 	case KGlobber:
 		if len(n.Ins) > 0 {
